@@ -2,9 +2,11 @@ import NbioVerif.Model.ConnFull
 import NbioVerif.DrvCommon
 /-! conndrv: runs the ConnFull model on the ops of `hconn` (see harness/cmd/hconn/main.go for the protocol).
 
-`wire` and `accepted` are only ever appended to by the model (`ConnFull.step_wire_frame`), so the
-driver empties them before every call and folds the bytes each call appends into a running
-(length, FNV-1a) pair. -/
+`wire` and the ghost `accepted` are write-only for the model: every occurrence of the two fields in
+Model/ConnFull.lean has the form `wire := s.wire ++ …` / `accepted := s.accepted ++ …` (checked on every
+run by the predicate `cs_model_appends_only` of vlib/props_conn.py). The driver therefore empties them
+before every call and folds the bytes each call appends into a running (length, FNV-1a) pair instead of
+carrying megabytes of list through every step. -/
 open ConnFull
 
 /-- content of the source file of Sendfile: byte i = (i*7 + 3) mod 256 (same as the harness) -/
